@@ -88,6 +88,8 @@ pub fn check(tier: Tier) -> Check {
     }
     // the re-sent packets through a transport that takes them in pieces (gathering vectored writes)
     parts.push(Part::new("C17/resume", json!({"depth": tier.pick(4, 5), "expiry": 1000, "secs_ago": 10, "wmode": "explore"}), tier.pick(1, 2), tier.pick(15, 300)));
+    // many unfinished handshakes at the loss (17 .. 300)
+    parts.push(Part::new("C17/bulk", json!({}), 0, 120));
     // two losses in a row: the session is resumed on a second and then on a third connection
     parts.push(Part::new("C17/resume", json!({"depth": tier.pick(4, 5), "expiry": 1000, "secs_ago": 10, "twice": true}), 0, tier.pick(15, 300)));
     parts.push(Part::new("C17/resume", json!({"depth": tier.pick(4, 5), "expiry": 1000, "secs_ago": 10, "twice": true, "r": 65535}), 0, tier.pick(15, 300)));
@@ -120,11 +122,82 @@ pub fn check(tier: Tier) -> Check {
 }
 
 pub fn scenario(name: &str, params: &Value) -> Scenario {
+    if name == "C17/bulk" {
+        return bulk("C17", name.to_string(), params.clone());
+    }
     scenario_for("C17", name, params)
 }
 
 /// (also run as a part of C10: with Receive Maximum 65535 every publish after the resume must be
 /// accepted, and the acknowledgements of re-sent packets must not break the quota arithmetic)
+/// Many unfinished handshakes at once (17 .. 300 QoS 1 / QoS 2 publishes, some between PUBREC and
+/// PUBCOMP), connection loss, resume: every one of them is re-sent, in order, under a wake-only
+/// executor - then acknowledged on the new connection.
+pub fn bulk(prop: &'static str, name: String, params: Value) -> Scenario {
+    Box::new(move |chz, ex| {
+        let n = [17usize, 33, 64, 300][chz.choose(4)];
+        let wmode = chz.choose(3);
+        let mut sys = Sys::new(prop, &name, chz);
+        sys.params = params.clone();
+        sys.auto_exit = false;
+        sys.m.check_streams = false;
+        let spec = ConnectSpec { client_id: Some("bulk".into()), session_expiry: Some(1000), ..Default::default() };
+        sys.connect_with(spec.clone(), SPacket::Connack { session_present: false, reason: 0, props: vec![] });
+        if !sys.dead {
+            sys.start_run();
+        }
+        for i in 0..n {
+            sys.apply(Ev::Start(OpSpec::Publish(PublishSpec::simple(1 + (i % 2) as u8, "t/bulk", format!("m{}", i).as_bytes()))));
+            // every fifth QoS 2 publish gets as far as its PUBREL
+            if i % 10 == 1 && !sys.dead {
+                if let Some(a) = sys.ack_for(i, 0, "") {
+                    sys.apply(Ev::Deliver(a));
+                }
+            }
+            if sys.dead {
+                return sys.report(ex, &[]);
+            }
+        }
+        sys.apply(Ev::Eof);
+        if sys.dead {
+            return sys.report(ex, &[]);
+        }
+        sys.events.push("MarkDisconnected(10s ago); Reconnect".into());
+        sys.classes.push("Reconnect".into());
+        sys.w.cmd(CtxCmd::MarkDisconnected(10));
+        sys.w.new_wire();
+        sys.m.new_wire();
+        sys.connect_with(spec, SPacket::Connack { session_present: true, reason: 0, props: vec![] });
+        if !sys.dead {
+            sys.events.push("Run(resume)".into());
+            sys.classes.push("Resume(expired=false)".into());
+            sys.m.resume(false);
+            match wmode {
+                1 => sys.set_write_mode(crate::wire::WriteMode::PendingEach),
+                2 => sys.set_write_mode(crate::wire::WriteMode::HalfThenPending),
+                _ => {}
+            }
+            sys.w.cmd(CtxCmd::Run);
+            sys.sync();
+            sys.set_write_mode(crate::wire::WriteMode::All);
+        }
+        for i in 0..n {
+            if sys.dead {
+                break;
+            }
+            while let Some(a) = sys.ack_for(i, 0, "") {
+                sys.apply(Ev::Deliver(a));
+                if sys.dead {
+                    break;
+                }
+            }
+        }
+        sys.finish();
+        sys.events = vec![format!("{} publishes unfinished at the loss, resumed (write mode {}), acknowledged", n, wmode)];
+        sys.report(ex, &["resume-resend-publish", "resume-resend-pubrel"]);
+    })
+}
+
 pub fn scenario_for(prop: &'static str, name: &str, params: &Value) -> Scenario {
     let depth = params["depth"].as_u64().unwrap_or(4) as usize;
     let expiry = params["expiry"].as_u64().unwrap_or(0) as u32;
